@@ -700,7 +700,8 @@ def unit_validate_terms(defect, timeout_ms=10000):
 # ---- find_operators ------------------------------------------------------------------------------------
 
 def unit_find_operators(case="mixed", timeout_ms=10000):
-    """find_operators(expr): the annihilation generators of every operator atom of expr.doit() - one per (class, name), whatever form the atom has (creation operator, sigma_x/y/z, both a and a^+) -
+    """find_operators(expr): the annihilation generators of every operator atom of expr AND of expr.doit() (a term that vanishes identically under doit, c^+ N_c, still has to be
+    convertible term by term) - one per (class, name), whatever form the atom has (creation operator, sigma_x/y/z, both a and a^+) -
     plus LadderOp(name) for number operators of ladder operators, sorted by (class rank BosonOp < LadderOp < SigmaMinus < FermionOp, name): exactly the order _validate_operators accepts."""
     node = frontend.find(MODULE, "find_operators")
 
@@ -730,6 +731,9 @@ def unit_find_operators(case="mixed", timeout_ms=10000):
                             raise Unsupported("arg attr")
                     return STup([T("op"), A()])
                 raise Unsupported(f"atom.{attr}")
+        # atoms of the expression as given (a term that vanishes identically, c^+ N_c, is only visible here) ...
+        raw_only = {"mixed": {"FermionOp": ["z"], "BosonOp": ["a"]}, "ladder-both-ways": {}, "none": {"SigmaOpBase": ["t"]}}[case]
+        # ... and of expr.doit() (number operators expanded, forms converted)
         cases = {
             "mixed": {"BosonOp": ["b", "a", "a"], "LadderOp": [], "SigmaOpBase": ["s", "s"], "FermionOp": ["d", "c"], "NumberOperator": [("l", "LadderOp"), ("a", "BosonOp"), ("k", "LadderOp")]},
             "ladder-both-ways": {"BosonOp": [], "LadderOp": ["l"], "SigmaOpBase": [], "FermionOp": [], "NumberOperator": [("l", "LadderOp")]},
@@ -748,9 +752,8 @@ def unit_find_operators(case="mixed", timeout_ms=10000):
                         return Ex(True)
                     return Builtin("doit", doit)
                 if attr == "atoms":
-                    if not s.done:
-                        raise Unsupported("atoms of the expression before doit()")
-                    return Builtin("atoms", lambda e_, cls_: STup([Atom(*((x,) if isinstance(x, str) else x)) for x in cases[cls_.name]], None, True))
+                    src = cases if s.done else {k: raw_only.get(k, []) for k in cases}
+                    return Builtin("atoms", lambda e_, cls_: STup([Atom(*((x,) if isinstance(x, str) else x)) for x in src[cls_.name]], None, True))
                 raise Unsupported(f"expr.{attr}")
 
         class SetM(Model):
@@ -774,9 +777,9 @@ def unit_find_operators(case="mixed", timeout_ms=10000):
         rank = {"BosonOp": 0, "LadderOp": 1, "SigmaMinus": 2, "FermionOp": 3}
         want = set()
         for cls_, gen in zip(("BosonOp", "LadderOp", "SigmaOpBase", "FermionOp"), ("BosonOp", "LadderOp", "SigmaMinus", "FermionOp")):
-            want |= {(gen, n) for n in cases[cls_]}
+            want |= {(gen, n) for n in cases[cls_]} | {(gen, n) for n in raw_only.get(cls_, [])}
         want |= {("LadderOp", n) for n, c in cases["NumberOperator"] if c == "LadderOp"}
         want = sorted(want, key=lambda x: (rank[x[0]], x[1]))
-        eng.oblige("result-is-the-canonically-sorted-list-of-the-distinct-generators", z3.BoolVal(got == want), detail=f"got {got}, want {want}")
-        eng.oblige("atoms-are-read-from-expr.doit()", z3.BoolVal(len(doits) == 1))
+        eng.oblige("result-is-the-canonically-sorted-list-of-the-distinct-generators-of-expr-and-expr.doit()", z3.BoolVal(got == want), detail=f"got {got}, want {want}")
+        eng.oblige("doit-evaluated-once", z3.BoolVal(len(doits) == 1))
     return run_unit(f"number_ordered_form:find_operators[{case}]", harness, functions=[(MODULE, "find_operators")], timeout_ms=timeout_ms)
